@@ -120,9 +120,9 @@ def exprs(tier):
     add("new-diamond", N("new", ("named", ["Box"], []), [A]))
     add("new-qualified", N("new", ("named", ["p", "K"], None), []))
     add("new-in-bin", N("bin", "==", N("new", ("named", ["K"], None), []), N("null")))
-    # E8 (thorough): all trees with three operator nodes over a reduced operator set
+    # E8: all trees with three operator nodes (quick: 12 binary operators covering every level; thorough: all 16)
     if True:
-        red = ["||", "&", "==", "<", "+", "*"] if tier != "thorough" else ["||", "&&", "|", "^", "&", "==", "<", ">=", "+", "-", "*", "%"]
+        red = ["||", "&&", "|", "^", "&", "==", "<", ">=", "+", "-", "*", "%"] if tier != "thorough" else list(BINOPS)
 
         def gen(depth):
             if depth == 0:
@@ -146,10 +146,10 @@ def exprs(tier):
             return res
         for e in gen(3):
             add("gen3", e)
-        if tier == "thorough":
-            red[:] = ["&&", "==", "+", "*"]
-            for e in gen(4):
-                add("gen4", e)
+        # E9: all trees with four operator nodes (quick: 4 binary operators of distinct levels; thorough: 6)
+        red[:] = ["&&", "==", "+", "*"] if tier != "thorough" else ["||", "&&", "==", "<", "+", "*"]
+        for e in gen(4):
+            add("gen4", e)
     return out
 
 
@@ -325,7 +325,7 @@ def main(tier):
     items = []
     stm = []
     for i, (tag, e) in enumerate(ex):
-        ctxs = contexts if (tier == "thorough" and tag not in ("gen3", "gen4")) else [contexts[0], contexts[(i % (len(contexts) - 1)) + 1]]
+        ctxs = contexts if tag not in ("gen3", "gen4") else [contexts[0], contexts[(i % (len(contexts) - 1)) + 1]]
         for c in ctxs:
             stm.append((tag, c(e)))
     for s in statements():
